@@ -15,7 +15,7 @@ LINKS = {
     '.hd': 'd', '.hd/z': 'f', 'lh': ('l', '.hd'), 'd/s/lf2': ('l', '../x'), 'd/s/t': 'd', 'd/s/t/y2': 'f',
 }
 NESTED = {'a': 'd', 'a/a': 'd', 'a/a/a': 'f', 'a/b': 'f', 'b': 'd', 'b/a': 'f', 'b/b': 'd', 'b/b/b': 'f', 'a/.a': 'f', '.a': 'd', '.a/a': 'f'}
-CASE = {'Sub': 'd', 'Sub/A.txt': 'f', 'Sub/b.txt': 'f', 'sub': 'd', 'sub/a.txt': 'f', 'X': 'f', 'x': 'f', 'Sub/D': 'd', 'Sub/D/q': 'f'}
+CASE = {'Sub': 'd', 'Sub/A.txt': 'f', 'Sub/b.txt': 'f', 'sub': 'd', 'sub/a.txt': 'f', 'X': 'f', 'x': 'f', 'Sub/D': 'd', 'Sub/D/q': 'f', 'Sub/d': 'd', 'Sub/d/r': 'f', 'Sub/d/Q': 'f'}
 DEEP2 = {'a': 'd', 'a/r': 'd', 'a/r/t': 'f', 'a/lr': ('l', 'r'), 'a/r/up': ('l', '../..'), 'top': 'f', 'a/r/.dot': 'd', 'a/r/.dot/in': 'f', 'a/sib': 'd', 'a/sib/lt': ('l', '../r/t')}
 ACYCLIC = {'a': 'd', 'a/r': 'd', 'a/r/t': 'f', 'a/lr': ('l', 'r'), 'a/sib': 'd', 'a/sib/lt': ('l', '../r/t'), 'a/r/lk': ('l', '../sib'), 'd': 'd', 'd/ls': ('l', '../a/sib'), 'd/y': 'f',
            'a/sib/y': 'f', '.hl': ('l', 'a')}
